@@ -996,6 +996,18 @@ class Explorer:
             if a[0] == "ref":
                 a = self.read_loc(st, a[1], a[2])     # `code.is_failure()`: &self pointing at a known variant
             return a[0] == "c" or (a[0] == "agg" and not a[3])
+        def known_variant(a):
+            if a[0] == "ref":
+                a = self.read_loc(st, a[1], a[2])
+            return a[0] == "agg" and a[1] in self.F.adts and self.F.adts[a[1]].get("kind") == "enum"
+        if callee is not None and constant_fn(callee) and len(stack) < 12 and callee["path"].startswith("mqtt::packet::"):
+            self.stats["inlined"].add(path)
+            return self.enter(st, stack, fr, callee, args, dest, target, None)
+        if callee is not None and len(args) == 1 and known_variant(args[0]) and len(stack) < 10 and pure_match_fn(callee, self.F) \
+                and not any(path.endswith(x) for x in getattr(self, "no_fold", ())):
+            # a table function (`match self { A(..) => X, B(..) => Y, .. }`, no calls) on a value whose variant is known
+            self.stats["inlined"].add(path)
+            return self.enter(st, stack, fr, callee, args, dest, target, None)
         if callee is not None and args and all(const_arg(a) for a in args) and len(stack) < 10 \
                 and not any(path.endswith(x) for x in getattr(self, "no_fold", ())):
             # constant folding through small in-crate functions (conversion tables, try_from on constants)
@@ -1180,6 +1192,18 @@ class Explorer:
         """Run a local closure on argvals, then `then(st, stack, result)`."""
         clo = self.closure_of(st, clo_val)
         if clo is None or clo[1] not in self.F.fns:
+            fv = clo_val
+            if fv[0] == "ref":
+                fv = self.read_loc(st, fv[1], fv[2])
+            if fv[0] == "fn":
+                # a function item used as the closure (`.map(IoSlice::new)`, `.map(Self::encode)`)
+                if fv[1].startswith("std::io::IoSlice::") and fv[1].endswith("::new") and len(argvals) == 1:
+                    a0 = argvals[0]
+                    return then(st, stack, ("io", ("loc", a0[1], a0[2]) if a0[0] == "ref" else a0))
+                if fv[1] in self.F.fns and len(stack) < 12:
+                    self.enter(st, stack, stack[-1], self.F.fns[fv[1]], list(argvals), None, None, lambda s3, k3, rv: then(s3, k3, rv))
+                    return "entered"
+                return then(st, stack, SYM(self.cap(("call", fv[1], tuple(argvals)))))
             return then(st, stack, SYM(self.cap(("call", "<fn>", tuple(argvals)))))
         callee = self.F.fns[clo[1]]
 
@@ -1199,6 +1223,27 @@ class Explorer:
             v = ("ref", root, (("ci", idx),)) if by_ref else self.read_loc(st1, root, (("ci", idx),))
             return apply(st1, stack1, 0, v, idx, count)
 
+        def unwrap_opt(st1, stack1, ai, v, idx, count):
+            """flatten / filter_map over Option items: Some(x) yields x, None is skipped (decided, or forked on the variant)."""
+            OPT = "std::option::Option"
+            vv = self.deref(st1, v) if v[0] == "ref" else v
+            if vv[0] == "agg" and vv[1] == OPT:
+                if vv[2] == "None":
+                    return step(st1, stack1, idx + 1, count)
+                return apply(st1, stack1, ai + 1, vv[3][0], idx, count)
+            if vv[0] == "sym":
+                dt = ("discr", vv[1], OPT)
+                s2 = st1.clone()
+                k2 = self.clone_stack(stack1)
+                if self.constrain(s2, dt, "eq", self.variant_discr(OPT, "None")):
+                    if step(s2, k2, idx + 1, count) != "stop":
+                        self.work.append((s2, k2))
+                if self.constrain(st1, dt, "eq", self.variant_discr(OPT, "Some")):
+                    return apply(st1, stack1, ai + 1, SYM(self.cap(("field", vv[1], 0))), idx, count)
+                self.finish_path(st1, None, "diverge")
+                return "stop"
+            return on_end(st1, stack1)
+
         def apply(st1, stack1, ai, v, idx, count):
             if ai == len(adaptors):
                 return on_item(st1, stack1, v, lambda s_, k_: step(s_, k_, idx + 1, count + 1))
@@ -1209,6 +1254,10 @@ class Explorer:
                 return apply(st1, stack1, ai + 1, ("tup", (C(count, "usize"), v)), idx, count)
             if ad[0] in ("map", "flat_map"):
                 return self.cseq_call_closure(st1, stack1, ad[1], [v], lambda s_, k_, rv: apply(s_, k_, ai + 1, rv, idx, count))
+            if ad[0] == "filter_map":
+                return self.cseq_call_closure(st1, stack1, ad[1], [v], lambda s_, k_, rv: unwrap_opt(s_, k_, ai, rv, idx, count))
+            if ad[0] == "flatten":
+                return unwrap_opt(st1, stack1, ai, v, idx, count)
             if ad[0] == "filter":
                 self._cs_n = getattr(self, "_cs_n", 0) + 1
                 tmp = ("CS", "tmp", self._cs_n)
@@ -1225,6 +1274,18 @@ class Explorer:
             return None
         nm = path.split("::")[-1]
         a0 = self.cseq_at(st, args[0])
+        if a0 is None:
+            # an array literal built on the path is a concrete sequence too: `[a, b, c].iter()...`, `[..].into_iter().flatten()...`
+            raw = args[0]
+            for _ in range(2):
+                if raw[0] == "ref":
+                    raw = self.read_loc(st, raw[1], raw[2])
+            if raw[0] == "arr" and len(raw[1]) <= 32 and nm in ("iter", "contains") and "slice" in path:
+                a0 = self.cseq_new(st, "arr", list(raw[1]))
+            elif raw[0] == "arriter" and nm in ("map", "filter", "flat_map", "filter_map", "flatten", "copied", "cloned", "enumerate", "sum", "count",
+                                               "all", "any", "find", "position", "for_each", "try_for_each", "collect"):
+                cs = self.cseq_new(st, "arr", list(raw[1]))
+                a0 = ("citer", cs[1], cs[2], raw[2], (), False)
         if a0 is None:
             # Extend::extend(vec, citer) / FromIterator: the concrete thing is the second argument
             if nm == "extend" and len(args) == 2 and self.cseq_at(st, args[1]) is not None and args[0][0] == "ref":
@@ -1255,14 +1316,28 @@ class Explorer:
                 return fin(st, stack, ("ref", root, (("ci", args[1][1]),)))
             if nm in ("clone", "to_vec", "to_owned"):
                 return fin(st, stack, a0)
+            if nm == "contains" and len(args) == 2:
+                # membership in a list of concrete values: decided element by element (derived equality)
+                x = self.deref(st, args[1]) if args[1][0] == "ref" else args[1]
+                res = False
+                for i in range(n):
+                    r = struct_eq(self.read_loc(st, root, (("ci", i),)), x)
+                    if r is True:
+                        res = True
+                        break
+                    if r is None:
+                        res = None
+                if res is None:
+                    return None
+                return fin(st, stack, C(1 if res else 0, "bool"))
             return None
         # ---- citer
         _, root, n, idx, adaptors, by_ref = a0
         if nm == "into_iter":
             return fin(st, stack, a0)
-        if nm in ("map", "filter", "flat_map") and len(args) == 2:
+        if nm in ("map", "filter", "flat_map", "filter_map") and len(args) == 2:
             return fin(st, stack, ("citer", root, n, idx, adaptors + ((nm, args[1]),), by_ref))
-        if nm in ("copied", "cloned", "enumerate"):
+        if nm in ("copied", "cloned", "enumerate", "flatten"):
             return fin(st, stack, ("citer", root, n, idx, adaptors + ((nm,),), by_ref))
         if nm == "by_ref":
             return fin(st, stack, args[0])
@@ -1270,7 +1345,7 @@ class Explorer:
             return fin(st, stack, ("citer", root, min(n, idx + args[1][1]), idx, adaptors, by_ref))
         if nm == "skip" and len(args) == 2 and args[1][0] == "c" and not adaptors:
             return fin(st, stack, ("citer", root, n, min(n, idx + args[1][1]), adaptors, by_ref))
-        if nm == "next" and args[0][0] == "ref" and not any(ad[0] in ("filter", "map", "flat_map") for ad in adaptors):
+        if nm == "next" and args[0][0] == "ref" and not any(ad[0] in ("filter", "map", "flat_map", "filter_map", "flatten") for ad in adaptors):
             if idx >= n:
                 return fin(st, stack, AGG(OPT, "None"))
             self.write_loc(st, args[0][1], args[0][2], ("citer", root, n, idx + 1, adaptors, by_ref))
@@ -1311,7 +1386,23 @@ class Explorer:
                     lambda s2, k2, rv: self.cseq_branch(s2, k2, rv, lambda s3, k3: fin(s3, k3, AGG(OPT, "Some", (v,))), resume))
             if nm == "find":
                 return self.cseq_drive(st, stack, a0, on_item_f, lambda s_, k_: fin(s_, k_, AGG(OPT, "None")))
-            return None
+            # position: index (among the items the closure sees) of the first one it accepts
+            boxp = []
+            keyp = (("CS", "pos", id(boxp)), ())
+
+            def on_item_p(s_, k_, v, resume, clo=clo):
+                i_ = s_.heap.get(keyp, C(0, "usize"))[1]
+                s_.heap[keyp] = C(i_ + 1, "usize")
+
+                def found(s3, k3):
+                    s3.heap.pop(keyp, None)
+                    return fin(s3, k3, AGG(OPT, "Some", (C(i_, "usize"),)))
+                return self.cseq_call_closure(s_, k_, clo, [v], lambda s2, k2, rv: self.cseq_branch(s2, k2, rv, found, resume))
+
+            def end_p(s_, k_):
+                s_.heap.pop(keyp, None)
+                return fin(s_, k_, AGG(OPT, "None"))
+            return self.cseq_drive(st, stack, a0, on_item_p, end_p)
         if nm == "for_each" and len(args) == 2:
             clo = args[1]
             return self.cseq_drive(st, stack, a0,
@@ -1362,8 +1453,12 @@ class Explorer:
                 s_.heap[key] = ("tup", s_.heap[key][1] + (v,))
                 return resume(s_, k_)
 
+            to_words = any(t.startswith("std::vec::Vec<") and tracked_elem(t[len("std::vec::Vec<"):-1]) for t in info.get("targs", []))
+
             def on_end_c(s_, k_):
                 items = s_.heap.pop((("CS", "col", id(box)), ()), ("tup", ()))[1]
+                if to_words:
+                    return fin(s_, k_, ("vec", tuple(items)))        # bytes / IoSlices / events: the word representation
                 return fin(s_, k_, self.cseq_new(s_, "collect", list(items)))
             return self.cseq_drive(st, stack, a0, on_item_c, on_end_c)
         return None
@@ -2324,8 +2419,8 @@ def struct_eq(a, b):
 
 
 def takes_property_list(callee):
-    return any("mqtt::packet::property::Property" in t and not t.startswith(("fn(", "for<", "unsafe ", "extern "))
-               for t in callee["locals"][1:callee.get("argc", 0) + 1])
+    import facts
+    return facts.takes_property_list(callee)
 
 
 def small_private_helper(callee, props_ok=False):
@@ -2334,7 +2429,7 @@ def small_private_helper(callee, props_ok=False):
     are followed only on request (props_ok) - the rules that evaluate validators do so on concrete lists."""
     return callee.get("kind") in ("Fn", "AssocFn") and not callee.get("pub") and callee["path"].startswith("mqtt::packet::") \
         and len(callee["blocks"]) <= 60 and not callee.get("impl_trait") and "Builder" not in callee.get("impl_self", "") \
-        and (props_ok or not (takes_property_list(callee) and (returns_mqtt_result(callee) or has_back_edge(callee))))
+        and (props_ok or not (callee.get("prop_validator") or (takes_property_list(callee) and has_back_edge(callee))))
 
 
 def returns_mqtt_result(callee):
@@ -2342,21 +2437,88 @@ def returns_mqtt_result(callee):
     return rt.startswith("std::result::Result<") and rt.endswith(",mqtt::result_code::MqttError>")
 
 
+def pure_match_fn(callee, F=None, depth=0):
+    """A body made of switches, assignments and returns only - no asserts, no loops, and no calls other than to
+    in-crate functions of the same kind (a lookup table, possibly delegating per variant to constant functions)."""
+    c = callee.get("_pure_match")
+    if c is None:
+        c = not has_back_edge(callee)
+        for b in callee["blocks"]:
+            if not c or b.get("cleanup"):
+                continue
+            t = b["term"]
+            if t["k"] in ("switch", "goto", "return", "unreachable"):
+                continue
+            if t["k"] == "call" and F is not None and depth < 2 and "fn" in t["func"].get("const", {}):
+                fi = t["func"]["const"]["fn"]
+                g = F.fns.get((fi.get("res") or {}).get("path", fi["path"]))
+                if g is not None and g is not callee and pure_match_fn(g, F, depth + 1):
+                    continue
+            c = False
+        callee["_pure_match"] = c
+    return c
+
+
+def constant_fn(callee):
+    """A straight-line body that never looks at its arguments (`fn id(&self) -> PropertyId { PropertyId::X }`)."""
+    c = callee.get("_constant_fn")
+    if c is None:
+        c = len(callee["blocks"]) <= 3 and all(b.get("cleanup") or b["term"]["k"] in ("goto", "return") for b in callee["blocks"])
+        if c:
+            argc = callee.get("argc", 0)
+
+            def uses_arg(x):
+                if isinstance(x, dict):
+                    if isinstance(x.get("l"), int) and 1 <= x["l"] <= argc and "p" in x:
+                        return True
+                    return any(uses_arg(v) for v in x.values())
+                if isinstance(x, list):
+                    return any(uses_arg(v) for v in x)
+                return False
+            c = not uses_arg([b for b in callee["blocks"] if not b.get("cleanup")])
+        callee["_constant_fn"] = c
+    return c
+
+
 def has_back_edge(callee):
+    """Does the body contain a loop (a cycle in its control-flow graph, cleanup blocks aside)?"""
+    c = callee.get("_has_loop")
+    if c is not None:
+        return c
+    succ = {}
     for b in callee["blocks"]:
         if b.get("cleanup"):
             continue
         t = b["term"]
         tg = []
-        for k in ("t", "targets", "otherwise", "unwind"):
-            v = t.get(k)
-            if isinstance(v, int):
-                tg.append(v)
-            elif isinstance(v, list):
-                tg += [x[1] if isinstance(x, (list, tuple)) else x for x in v if isinstance(x, (int, list, tuple))]
-        if any(isinstance(x, int) and x <= b["i"] for x in tg):
-            return True
-    return False
+        v = t.get("t")
+        if isinstance(v, int):
+            tg.append(v)
+        if t["k"] == "switch":
+            for x in t.get("targets", []):
+                tg.append(x[1] if isinstance(x, (list, tuple)) else x)
+            if isinstance(t.get("otherwise"), int):
+                tg.append(t["otherwise"])
+        succ[b["i"]] = [x for x in tg if isinstance(x, int)]
+    color = {}
+    res = False
+    stack = [(0, iter(succ.get(0, [])))]
+    color[0] = 1
+    while stack and not res:
+        n, it = stack[-1]
+        for m in it:
+            if color.get(m) == 1:
+                res = True
+                break
+            if m not in color and m in succ:
+                color[m] = 1
+                stack.append((m, iter(succ[m])))
+                break
+        else:
+            color[n] = 2
+            stack.pop()
+    callee["_has_loop"] = res
+    return res
 
 
 BUILDER_RE = re.compile(r"^mqtt::packet::.*Builder(<.*>)?$")
